@@ -38,11 +38,17 @@ func defFor(check string) *checkDef {
 			probes: []string{"same-epoch-rewrite-after-recovery", "file-merge", "in-memory-merge"}}
 	case "C12":
 		return &checkDef{property: "C12", level: "fault_enumeration", timeout: 900 * time.Second,
-			variants: []string{"C12", "C12", "C12", "C12big"},
-			budget:   map[string]tierCfg{"quick": {48, 90}, "thorough": {3000, 1800}},
+			variants: []string{"C12big", "C12", "C12", "C12", "C12", "C12", "C12", "C12"},
+			budget:   map[string]tierCfg{"quick": {40, 50}, "thorough": {3000, 1800}},
 			rule: "storage-corruption fault injection on the snapshot files simulated runs actually produce (0..many segments, with and without deleted bitmaps; every fourth run is a no-merge run of ~200 batches so that the file crosses the 4096-byte read buffer). Round trip: every produced snapshot is decoded with the exported decoder and compared (ids, types, versions, deleted sets) with what was handed to the encoder. Rejection, per chosen file: every truncation length, every single-bit flip (quick tier on files > 300 bytes: header, trailer, the 4096 boundary and a seeded sample), appended tails (1 byte, 4 bytes, a copy of itself), zero-fill, seeded garbage, every uvarint length field replaced by 2^31/2^40/2^63/2^64-1; the damaged file is the newest snapshot of an image that also holds the older intact ones; the image is opened in a child process (RLIMIT_AS) through the mmap and the non-mmap loader: no death, no panic, allocation <= 64 x directory size + 16 MiB, content = the older snapshot's state. evaluations = simulated runs; crash_images_probed = damaged images opened. Ids up to 2^64-1 and coverage-guided fuzzing of the decoder are input generation, outside this technique",
 			assume: append([]string{"CRC-32 detects every single-bit flip and every burst <= 32 bits; a truncation is accepted with probability 2^-32 per length (would be reported)"}, commonAssume...),
 			probes: []string{"snapshot-over-4096-bytes", "damaged-snapshot-with-deleted-bitmap"}}
+	case "C13":
+		return &checkDef{property: "C13", level: "fault_enumeration", timeout: 600 * time.Second, special: true,
+			budget: map[string]tierCfg{"quick": {1, 300}, "thorough": {1, 600}},
+			rule: "exhaustive enumeration, against the real FileSystemDirectory over the hooked os package, of: item kind {segment, snapshot} x item size {0,1,4095,4096,4097,3 buffers+5} x buffered/unbuffered item writer x pre-existing file {absent, shorter, equal, longer} x item-writer outcome {ok, error after k bytes, cancelled before, cancelled after k bytes} x os fault {none, open EACCES/EMFILE, truncate EIO, write ENOSPC/EIO after k bytes, fsync EIO, close EIO}, k over the boundary set {0,1,size/2,size-1,size,4095,4096,4097}. Oracle: on nil the file holds exactly the bytes written, the os event log shows a successful Sync on it after the last write/truncate and before return, no injected non-write fault was swallowed; on error or cancellation nothing is left under the item's name (an untouched pre-existing file is accepted only when the failure preceded any change). non-trivial = a fault, a failing/cancelled item writer or a pre-existing file is involved",
+			assume: []string{"os.File.Sync is the flush to stable storage (observed at the os seam through a go build -overlay hook)", "single caller: Persist of one item is not raced with another Persist of the same name"},
+		}
 	case "C12big":
 		d := defFor("C12")
 		return d
